@@ -78,6 +78,12 @@ def run(cmd, cwd, timeout, mem_gb=None, out=None):
             b = int(mem_gb * (1 << 30))
             resource.setrlimit(resource.RLIMIT_AS, (b, b))
         os.setsid()
+        try:
+            # never leave orphaned solver processes behind when the driver itself is killed
+            import ctypes
+            ctypes.CDLL('libc.so.6').prctl(1, 9)      # PR_SET_PDEATHSIG, SIGKILL
+        except Exception:
+            pass
     t0 = time.time()
     try:
         if out:
@@ -414,7 +420,7 @@ def run_unit(unit, tier, keep=False, verbose=False):
         rc, _, wall = run(cmd, scratch, timeout, mem_gb=mem, out=outp)
         if rc == -9:
             res['status'] = 'UNDECIDED'
-            res['why'] = 'cbmc timeout after %ds' % timeout
+            res['why'] = ('cbmc timeout after %ds' % timeout) if wall >= timeout - 1 else 'cbmc was killed after %ds (out of memory?)' % wall
             if cov_future:
                 cov_future.cancel()
             return res
